@@ -92,6 +92,11 @@ def cases(tier, rng):
                 yield "no-range", mk(head, None, None, size, cs)
                 for sp in specs:
                     yield "one-spec", mk(head, "bytes=" + sp, None, size, cs)
+    # (a') positions written with leading zeros (1*DIGIT): the value counts, not the spelling
+    for size in (1, 7, 10):
+        for h in ("bytes=00-", "bytes=0-0003", "bytes=-002", "bytes=007-", "bytes=0000000000000000001-02", "bytes=1-0003, 6-", "bytes=00-00,2-"):
+            for head in (False, True):
+                yield "zero-padded", mk(head, h, None, size, 3)
     # (b) two and three specs (multipart), sampled
     n2 = 2500 if tier == "quick" else 40000
     for _ in range(n2):
@@ -223,12 +228,15 @@ def run_asgi(case, head, zc):
     path = file_for(data)
     st = os.stat(path)
     resp = A.FileResponse(path, content_type=ctype, download_name=name or None, chunk_size=cs, stat_result=st if (len(data) + cs) % 2 else None)   # None: the constructor stats the file itself
-    for phead, prng, pifr in prelude(case):
+    for pi, (phead, prng, pifr) in enumerate(prelude(case)):
         phs = [(b"range", prng[0].encode("latin-1"))] if prng else []
         if pifr:
             phs.append((b"if-range", pifr[0].encode("latin-1")))
+        # whether zero-copy send is offered is a matter of each request's scope (two listeners in front of one
+        # application object): the earlier requests alternate, beginning with the opposite of this request's offer
+        pzc = (not zc) if pi % 2 == 0 else zc
         util.call_asgi(resp, util.http_scope("HEAD" if phead else "GET", headers=phs,
-                                             extensions={"http.response.zerocopysend": {}} if zc else None))
+                                             extensions={"http.response.zerocopysend": {}} if pzc else None))
     hs = []
     if rng:
         hs.append((b"range", rng[0].encode("latin-1")))
